@@ -31,6 +31,13 @@ type IntV struct {
 	Sym   int   // >0: symbolic value Sym*A+B over symbol table (stage 2)
 	A, B  int64
 	Bits  *bitVec // bit-level reading of an unsigned value (interp_bits.go), nil when not tracked
+	Hex   *hexChar // Interp.Precise: this byte is a hex digit of another (unknown) byte
+}
+
+// hexChar: the high or low hex digit of the byte Of.
+type hexChar struct {
+	Of IntV
+	Hi bool
 }
 
 type FloatV struct {
